@@ -337,3 +337,7 @@ class PGPacker(pg.PluginGroup[Packer]):
             cont.manifest.manifest_exts[self.name] = pinfo.dict()
 
         cont.close()
+
+
+# resolve the forward reference to PGPacker.PluginRef (PGPacker is defined after PackerInfo)
+PackerInfo.update_forward_refs()
